@@ -143,10 +143,8 @@ Proof.
   destruct (wf_width _ Ha) as [Hwa _], (wf_width _ Hb) as [Hwb _], (wf_width _ Hr) as [Hwr _].
   unfold fxmul. cbv zeta. destruct (Z.ltb_spec (ffrac af + ffrac bf - ffrac rf) 0) as [Hc|_]; [lia|]. f_equal.
   set (low := ffrac af + ffrac bf - ffrac rf) in *.
-  rewrite Range_char by lia. rewrite !SignExtend_char by lia. rewrite Mul_char.
-  rewrite trunc_mul_l, trunc_mul_r by lia.
-  replace (low + fwidth rf - low + 1) with (fwidth rf + 1) by lia.
-  rewrite trunc_trunc_le by lia. rewrite !trunc_mod by lia.
+  rewrite Range_window by lia. rewrite !SignExtend_char by lia. rewrite Mul_char.
+  rewrite trunc_mul_l, trunc_mul_r by lia. rewrite !trunc_mod by lia.
   unfold spec_mul, fxint. apply window_div; lia.
 Qed.
 
@@ -159,10 +157,8 @@ Proof.
   destruct (wf_width _ Ha) as [Hwa _], (wf_width _ Hb) as [Hwb _], (wf_width _ Hr) as [Hwr _].
   unfold fxmul. cbv zeta. destruct (Z.ltb_spec (ffrac af + ffrac bf - ffrac rf) 0) as [Hc|_]; [lia|]. f_equal.
   set (low := ffrac af + ffrac bf - ffrac rf) in *.
-  rewrite Range_char by lia. rewrite !SignExtend_char by lia. rewrite Mul_char.
+  rewrite Range_window by lia. rewrite !SignExtend_char by lia. rewrite Mul_char.
   rewrite trunc_mul_l, trunc_mul_r by lia.
-  replace (low + fwidth rf - low + 1) with (fwidth rf + 1) by lia.
-  rewrite trunc_trunc_le by lia.
   pose proof (sgn_range (fwidth af) a Hwa Ea) as Ra. pose proof (sgn_range (fwidth bf) b Hwb Eb) as Rb.
   set (sa := sgn (fwidth af) a) in *. set (sb := sgn (fwidth bf) b) in *.
   pose proof (pow2_pos (fwidth af - 1) ltac:(lia)) as Pa. pose proof (pow2_pos (fwidth bf - 1) ltac:(lia)) as Pb.
@@ -183,10 +179,8 @@ Proof.
   destruct (wf_width _ Ha) as [Hwa _], (wf_width _ Hb) as [Hwb _], (wf_width _ Hr) as [Hwr _].
   unfold fxmul. cbv zeta. destruct (Z.ltb_spec (ffrac af + ffrac bf - ffrac rf) 0) as [Hc|_]; [lia|].
   set (low := ffrac af + ffrac bf - ffrac rf) in *.
-  rewrite Range_char by lia. rewrite !SignExtend_char by lia. rewrite Mul_char.
+  rewrite Range_window by lia. rewrite !SignExtend_char by lia. rewrite Mul_char.
   rewrite trunc_mul_l, trunc_mul_r by lia.
-  replace (low + fwidth rf - low + 1) with (fwidth rf + 1) by lia.
-  rewrite trunc_trunc_le by lia.
   pose proof (sgn_range (fwidth af) a Hwa Ea) as Ra. pose proof (sgn_range (fwidth bf) b Hwb Eb) as Rb.
   unfold spec_mul, fxint. fold low.
   set (sa := sgn (fwidth af) a) in *. set (sb := sgn (fwidth bf) b) in *.
